@@ -1,4 +1,5 @@
 import RustbusModel.Model.Serial
+import RustbusModel.Lemmas.Serial
 /-!
 C13 — Serials are fresh, non-zero and increasing; replies are correlated to their call.
 -/
@@ -133,6 +134,114 @@ theorem replies_correlated (call : Hdr) (name : List Char) :
     (makeResponse call).serial = none ∧ (makeErrorResponse call name).serial = none := by
   simp [makeResponse, makeErrorResponse]
 
+
+/-! ### Suspended and resumed sends (`into_progress` / `resume`), interleaved with explicit allocation -/
+
+/-- Freshness over histories that also suspend, resume and give up sends: every serial the connection issues itself
+    — by `alloc_serial`, by a send, or by a send that is suspended before it is transmitted — is non-zero and strictly
+    greater than every serial it issued before. In particular the serial of a suspended send is never handed out a
+    second time, neither while it is suspended nor after it was given up. -/
+theorem serials_fresh_increasing_suspended (ops : List Op2) (es : List Ev) (c' : Conn2)
+    (h : run2 Conn2.init ops = some (es, c')) :
+    (∀ i ∈ issuedOf es, i.fresh = true → 0 < i.serial) ∧
+    List.Pairwise (fun a b => a.fresh = true → b.fresh = true → a.serial < b.serial) (issuedOf es) := by
+  obtain ⟨_, h2, h3⟩ := run2_inv ops Conn2.init es c' h
+  refine ⟨?_, h3⟩
+  intro i hi hf
+  have := (h2 i hi hf).1
+  simp [Conn2.init, Conn.init] at this; omega
+
+/-- The serial reported to the caller is the serial in the transmitted header, also across a suspension: a send that
+    is suspended, followed by any number `n` of explicit allocations, followed by its resumption, puts on the wire
+    exactly the serial that `send_message` reported (the preset one if there was one); everything in between are
+    fresh serials of the allocations. Holds from every connection state. -/
+theorem resumed_send_carries_reported_serial (c : Conn2) (p : Option Nat) (n : Nat) (es : List Ev) (c' : Conn2)
+    (h : run2 c (.begin p :: (List.replicate n (.base .alloc) ++ [.resume])) = some (es, c')) :
+    ∃ s mid, es = .issued ⟨s, p.isNone⟩ :: (mid ++ [.wire s]) ∧ (∀ q, p = some q → s = q) ∧
+      (∀ e ∈ mid, ∃ i, e = .issued i ∧ i.fresh = true) ∧ c'.pending = none := by
+  simp only [run2] at h
+  cases hs : step2 c (.begin p) with
+  | none => simp [hs] at h
+  | some r =>
+    obtain ⟨es0, c1⟩ := r
+    simp only [hs] at h
+    -- the begin step
+    have hb : ∃ s, es0 = [.issued ⟨s, p.isNone⟩] ∧ c1.pending = some s ∧ (∀ q, p = some q → s = q) := by
+      simp only [step2] at hs
+      cases hp : c.pending with
+      | some s => simp [hp] at hs
+      | none =>
+        simp only [hp] at hs
+        cases hq : sendSerial c.conn p with
+        | none => simp [hq] at hs
+        | some w =>
+          obtain ⟨s, k⟩ := w
+          simp only [hq, Option.map_some, Option.some.injEq, Prod.mk.injEq] at hs
+          obtain ⟨rfl, rfl⟩ := hs
+          refine ⟨s, rfl, rfl, ?_⟩
+          intro q hq'
+          subst hq'
+          simp only [sendSerial, Option.some.injEq, Prod.mk.injEq] at hq
+          exact hq.1.symm
+    obtain ⟨s, rfl, hpend, hpre⟩ := hb
+    rw [run2_append] at h
+    cases ha : run2 c1 (List.replicate n (.base .alloc)) with
+    | none => simp [ha] at h
+    | some w =>
+      obtain ⟨mid, c2⟩ := w
+      simp only [ha] at h
+      obtain ⟨k1, k2⟩ := run2_allocs n c1 mid c2 ha
+      have hp2 : c2.pending = some s := by rw [k1, hpend]
+      simp only [run2, step2, hp2, List.append_nil, Option.some.injEq, Prod.mk.injEq] at h
+      obtain ⟨rfl, rfl⟩ := h
+      exact ⟨s, mid, by simp, hpre, k2, rfl⟩
+
+/-- Histories compose: what happens after a prefix depends only on the state the prefix left, so the two theorems
+    above apply at any point of any longer history. -/
+theorem histories_compose (c : Conn2) (xs ys : List Op2) (es : List Ev) (c' : Conn2)
+    (h : run2 c (xs ++ ys) = some (es, c')) :
+    ∃ es1 c1 es2, run2 c xs = some (es1, c1) ∧ run2 c1 ys = some (es2, c') ∧ es = es1 ++ es2 := by
+  rw [run2_append] at h
+  cases h1 : run2 c xs with
+  | none => simp [h1] at h
+  | some q =>
+    obtain ⟨es1, c1⟩ := q
+    simp only [h1] at h
+    cases h2 : run2 c1 ys with
+    | none => simp [h2] at h
+    | some r =>
+      obtain ⟨es2, c2⟩ := r
+      simp only [h2, Option.some.injEq, Prod.mk.injEq] at h
+      obtain ⟨rfl, rfl⟩ := h
+      exact ⟨es1, c1, es2, rfl, h2, rfl⟩
+
+/-- An unsuspended send reports and transmits the same serial. -/
+theorem send_reports_wire_serial (c : Conn2) (p : Option Nat) (es : List Ev) (c' : Conn2)
+    (h : step2 c (.base (.send p)) = some (es, c')) :
+    ∃ s, es = [.issued ⟨s, p.isNone⟩, .wire s] ∧ (∀ q, p = some q → s = q) := by
+  simp only [step2] at h
+  cases hp : c.pending with
+  | some s => simp [hp] at h
+  | none =>
+    simp only [hp] at h
+    cases hq : sendSerial c.conn p with
+    | none => simp [hq] at h
+    | some w =>
+      obtain ⟨s, k⟩ := w
+      simp only [hq, Option.map_some, Option.some.injEq, Prod.mk.injEq] at h
+      obtain ⟨rfl, rfl⟩ := h
+      refine ⟨s, rfl, ?_⟩
+      intro q hq'
+      subst hq'
+      simp only [sendSerial, Option.some.injEq, Prod.mk.injEq] at hq
+      exact hq.1.symm
+
+-- non-vacuity: suspend (serial 2), allocate twice (3, 4), resume (2 on the wire), send (5); give one up (6), send (7)
+example : (run2 Conn2.init [.base (.send none), .begin none, .base .alloc, .base .alloc, .resume, .base (.send none),
+      .begin none, .abandon, .base (.send none)]).map (·.1) =
+    some [.issued ⟨1, true⟩, .wire 1, .issued ⟨2, true⟩, .issued ⟨3, true⟩, .issued ⟨4, true⟩, .wire 2,
+      .issued ⟨5, true⟩, .wire 5, .issued ⟨6, true⟩, .issued ⟨7, true⟩, .wire 7] := by decide
+
 -- non-vacuity: a concrete history with presets in between
 example : (run Conn.init [.send none, .alloc, .send (some 7), .send none]).map (·.1.map (·.serial)) =
     some [1, 2, 7, 3] := by decide
@@ -144,3 +253,7 @@ end Rustbus.Serial
 #print axioms Rustbus.Serial.alloc_overflow
 #print axioms Rustbus.Serial.no_overflow_before
 #print axioms Rustbus.Serial.replies_correlated
+#print axioms Rustbus.Serial.serials_fresh_increasing_suspended
+#print axioms Rustbus.Serial.resumed_send_carries_reported_serial
+#print axioms Rustbus.Serial.histories_compose
+#print axioms Rustbus.Serial.send_reports_wire_serial
